@@ -75,6 +75,7 @@ type runner struct {
 	pkgName   string
 	testBin   string
 	known     map[string]string // id -> what (open findings)
+	replayRec *replayRecord
 	seed      int64
 	start     time.Time
 	env       []string
@@ -150,7 +151,10 @@ func (r *runner) runVariants(ev *evidence) int {
 		if sub.Bounds == "" {
 			sub.Bounds = spec.Bounds
 		}
-		r2 := &runner{spec: &sub, tier: r.tier, only: r.only, workers: r.workers, keep: r.keep, verbose: r.verbose, seed: r.seed, start: r.start, env: r.env}
+		if r.replayRec != nil && !r.replayRec.matches(&sub) {
+			continue
+		}
+		r2 := &runner{spec: &sub, tier: r.tier, only: r.only, workers: r.workers, keep: r.keep, verbose: r.verbose, seed: r.seed, start: r.start, env: r.env, replayRec: r.replayRec}
 		r2.dir = sub.Dir
 		if r2.dir == "" {
 			r2.dir = "/repo"
@@ -221,7 +225,7 @@ func (r *runner) runVariants(ev *evidence) int {
 	cov["inconclusive"] = inconclusive
 	cov["exhaustive"] = false
 	cov["explanation"] = "states = feasible paths explored to completion within the stated bounds, summed over the variants; transitions = SMT queries discharged"
-	if code == 0 {
+	if code == 0 && r.replayRec == nil {
 		fmt.Printf("OK property=%s tier=%s variants=%d paths=%d queries=%d validated=%d wall=%.0fs\n", spec.ID, r.tier, len(labels), states, transitions, validated, time.Since(r.start).Seconds())
 	}
 	return code
@@ -240,6 +244,9 @@ func toInt(v any) int64 {
 }
 
 func (r *runner) writeEvidence(ev *evidence) {
+	if r.replayRec != nil {
+		return // a replay is not a check run: the evidence of the last check run stays
+	}
 	cov := ev.Coverage
 	// schema: model_checking needs states>=1, transitions>=1, traces_validated_against_impl, samples (>=1)
 	if _, ok := cov["states"]; !ok {
@@ -371,6 +378,9 @@ func (r *runner) run1(ev *evidence) int {
 		}
 	}
 	r.logf("loaded %s and built SSA in %.1fs", spec.Pkg, time.Since(t0).Seconds())
+	if r.replayRec != nil {
+		return r.doReplay()
+	}
 
 	cfg := &gosym.Config{MaxSteps: 20000000, MaxDepth: 4000, MaxFork: 64, SolverKind: "z3-new", TimeoutMs: 20000, InitAllow: gosym.DefaultInitAllow}
 	if r.spec.RealMeta {
@@ -604,7 +614,7 @@ func (v *violationError) Error() string { return v.msg }
 func (r *runner) reportViolationFile(ev *evidence, harness string, args []int64, msg string, model gosym.Model, how string) int {
 	dir := "/verif/replays/" + r.spec.ID
 	os.MkdirAll(dir, 0o755)
-	rec := map[string]any{"property": r.spec.ID, "harness": harness, "args": args, "message": msg, "vars": model, "native_replay": how,
+	rec := map[string]any{"property": r.spec.ID, "variant": r.spec.Label, "harness": harness, "args": args, "message": msg, "vars": model, "native_replay": how,
 		"replay_cmd": fmt.Sprintf("/verif/check %s --replay <this file>", r.spec.ID)}
 	b, _ := json.MarshalIndent(rec, "", " ")
 	h := sha1.Sum(b)
@@ -836,4 +846,89 @@ func firstLine(s string) string {
 		return s[:i]
 	}
 	return s
+}
+
+// ---------------------------------------------------------------------------------------------
+// replay of a recorded counterexample against the current tree
+
+type replayRecord struct {
+	Property string            `json:"property"`
+	Variant  string            `json:"variant"`
+	Harness  string            `json:"harness"`
+	Args     []int64           `json:"args"`
+	Message  string            `json:"message"`
+	Vars     map[string]uint64 `json:"vars"`
+}
+
+func loadReplay(path string) (*replayRecord, error) {
+	b, err := os.ReadFile(path)
+	if err != nil {
+		return nil, err
+	}
+	rec := &replayRecord{}
+	if err := json.Unmarshal(b, rec); err != nil {
+		return nil, err
+	}
+	return rec, nil
+}
+
+func (rec *replayRecord) matches(p *Prop) bool {
+	if rec.Variant != "" && p.Label != rec.Variant {
+		return false
+	}
+	if rec.Harness == "prepare" || p.Custom != nil {
+		return true
+	}
+	for _, h := range p.Harnesses {
+		if h.Func == rec.Harness {
+			return true
+		}
+	}
+	return false
+}
+
+func (r *runner) doReplay() int {
+	rec := r.replayRec
+	if rec.Harness == "prepare" {
+		fmt.Println("REPLAY: the recorded failure was in the generation step; it did not recur on the current tree")
+		return 0
+	}
+	if r.spec.Custom != nil {
+		fmt.Println("REPLAY: this counterexample is a schedule of the SMT model; re-run the check to re-derive and confirm it:", rec.Message)
+		return 2
+	}
+	found := false
+	for _, h := range r.spec.Harnesses {
+		if h.Func != rec.Harness {
+			continue
+		}
+		for _, t := range append(append([][]int64{}, h.Quick...), h.Thorough...) {
+			if caseKey(h.Func, t) == caseKey(h.Func, rec.Args) {
+				found = true
+			}
+		}
+	}
+	if !found {
+		r.spec.Harnesses = append(r.spec.Harnesses, Harness{Func: rec.Harness, Quick: [][]int64{rec.Args}})
+	}
+	mf := filepath.Join(r.scratch, "replay-model.json")
+	b, _ := json.Marshal(map[string]any{"vars": rec.Vars})
+	os.WriteFile(mf, b, 0o644)
+	out, err := r.runNative(caseKey(rec.Harness, rec.Args), mf, 120*time.Second)
+	outcome := ""
+	for _, line := range strings.Split(out, "\n") {
+		if strings.HasPrefix(line, "ZZREPLAY-OUTCOME: ") {
+			outcome = strings.TrimPrefix(line, "ZZREPLAY-OUTCOME: ")
+		}
+	}
+	fmt.Printf("REPLAY harness=%s args=%v recorded: %s\n", rec.Harness, rec.Args, rec.Message)
+	if outcome == "" {
+		fmt.Printf("REPLAY native run gave no outcome (err=%v): %s\n", err, tail(out, 800))
+		return 1
+	}
+	fmt.Println("REPLAY native outcome on the current tree:", outcome)
+	if strings.HasPrefix(outcome, "ASSERT-FAILED") || strings.HasPrefix(outcome, "PANIC") {
+		return 1
+	}
+	return 0
 }
